@@ -47,6 +47,9 @@ CHECKS = {
  "C18": dict(cat="exploration", tech="deterministic simulation of two implementations of one interface (off-circuit interpreter vs compiled circuit) on generated IR programs, with program-corruption faults, a Byzantine prover (witness-cell faults with honest continuation) on the compiled circuit and storage faults (short / interrupted I/O) on the serialised forms; the interpreter is the reference model", ref="DESIGN.md 4/C18",
    text="Generated straight-line IR programs (1..25 instructions over all 17 operations and 6 value types, dataflow reuse, constants, every load published first, results published last) with boundary-class witnesses (0, max BigUint of the declared width, identity point, scalar order-1, scalars >= order through bytes, byte arrays of length 0..70) are evaluated off-circuit and compiled: success with published values P requires the circuit to be satisfiable with exactly format_instance(P) (instance read off the copy constraints), an assertion / range / underflow / encoding failure requires it not to be; ill-typed, wrong-arity, duplicate-name, missing-name and missing-witness variants must get an error value from both sides, never a panic; under a Byzantine prover an accepted execution must publish what the interpreter computes from the loads the circuit binds; the binary form written and read through faulty writers / readers must re-encode identically and decode to the JSON form's instructions.",
    note="The interpreter is one of the two systems under test (hash / arithmetic gadgets get independent references under C04-C07). SHA-256 / SHA-512 instructions only in every 8th program; programs needing k > 13 are skipped (counted). Two known findings (publication of a JubjubScalar decoded from 0 or >= 32 bytes)."),
+ "C19": dict(cat="exploration", tech="seeded generation of expressions decided on ALL words by exhaustive exploration of the product of the compiled automaton with the derivative automaton of an independent reference semantics; deterministic simulation of the in-circuit parser and base64 decoder under a Byzantine prover (H1 witness faults with honest continuation, late edits on whole copy cycles with local repair)", ref="DESIGN.md 4/C19",
+   text="Generated expressions over all combinators (byte classes, complement classes, words, concatenation, union, intersection with marker unification, complement, difference, star / plus / optional, exact and bounded repetition, separated lists, mark_bytes, replace_markers; depth <= 5) are compiled by the library and compared with Brzozowski derivatives over marked letters on all words (every byte, every marker): a reachable product state where exactly one side accepts is reported with its word. Accepted and rejected words of length 0..40 then go through a circuit built on AutomatonChip: satisfiable exactly for accepted words with the reference markers, also under the Byzantine prover. Fixed-length base64 / base64url decoding in the standard-library circuit for decoded lengths 0..48, padded / unpadded, single-character corruptions, misplaced padding, non-canonical trailing bits: well-formed inputs decode to the standard bytes, malformed ones are unsatisfiable.",
+   note="Expressions that are not sequentially output-deterministic are skipped (the library requires it), as are products above 60000 states (counted). Variable-length base64, the credential parser gadget and the shipped serialized automaton's specification (private) are not exercised. Three known findings."),
  "C03": dict(cat="fault_enumeration", tech="deterministic simulation with channel faults (corruption, truncation, duplication, reordering, misdelivery) placed per proof element via the tracing transcript; statement-store oracle", ref="DESIGN.md 4/C03",
    text="Every element of every sampled proof is replaced by other valid and by invalid encodings, the proof is truncated at every element boundary, extended, reordered and bit-flipped, every public-input vector is edited / permuted / shortened / extended / moved, committed instances, vk and transcript hash are swapped; each altered delivery must be rejected with an error and the untouched delivery must still be accepted afterwards.",
    note="Cryptographic soundness error ignored; proofs come from the GenCircuit family at k <= 7; thorough mode flips every bit only of proofs <= 2 KiB."),
